@@ -265,6 +265,21 @@ def main():
             continue
         case = json.loads(line)
         res = {}
+        if case.get("kind") == "digits":
+            # every code point that SELECTOR_REGEX accepts as the index between brackets, as ranges
+            prop = stix2.properties.SelectorProperty()
+            rs = []
+            for c in range(0x110000):
+                try:
+                    prop.clean("abc.[" + chr(c) + "]")
+                except ValueError:
+                    continue
+                if rs and rs[-1][1] == c - 1:
+                    rs[-1][1] = c
+                else:
+                    rs.append([c, c])
+            print(json.dumps({"digits": ",".join("%d-%d" % (a, b) for a, b in rs)}))
+            continue
         if case.get("kind") == "syntax":
             # SelectorProperty.clean on each string: does the selector syntax admit it?
             prop = stix2.properties.SelectorProperty()
